@@ -133,9 +133,10 @@ def val_norm(req, v):
 PROPS = {
     "C01": dict(
         level="proof",
-        modules=["Exmex.Props.C01", "Exmex.Props.C01Parse", "Exmex.Props.C14"],
+        modules=["Exmex.Props.C01", "Exmex.Props.C01Parse", "Exmex.Props.C14", "Exmex.Props.C13Lex"],
         theorems=["Exmex.C01.flat_eval_eq_denote", "Exmex.C01.parseWoCompile_eval_eq_denote", "Exmex.C01.parse_eval_eq_denote",
-                  "Exmex.C01.checkPre_toks", "Exmex.C01.findVars_toks", "Exmex.C14.evalNumbers_any_order"],
+                  "Exmex.C01.checkPre_toks", "Exmex.C01.findVars_toks", "Exmex.C14.evalNumbers_any_order",
+                  "Exmex.C13.tokenize_render_spaced", "Exmex.C13.parse_spaced_eval_eq_denote"],
         rule="random operator tables x random well-formed chains x random renderings; non-trivial = at least two binary operators; distinct by hash of the request (table, text)",
         kinds=[dict(kind="flat", quick=24000, thorough=1200000,
                     corr=["wo", "vars", "nwo", "toksimpl"], oracle=[("wo_nf", "spec_nf"), ("vars", "svars"), ("toksimpl", "stoks")],
@@ -207,7 +208,7 @@ PROPS = {
     ),
     "C10": dict(
         level="proof",
-        modules=["Exmex.Props.C10", "Exmex.Props.C10Shortcuts", "Exmex.Props.C02Deep", "Exmex.Props.C03"],
+        modules=["Exmex.Props.C10", "Exmex.Props.C10Shortcuts", "Exmex.Proofs.WrapOK", "Exmex.Props.C02Deep", "Exmex.Props.C03"],
         theorems=["Exmex.C10.resetVars_sound", "Exmex.C10.operateBin_sound", "Exmex.C10.operateUnary_sound", "Exmex.C10.operateBin_unknown",
                   "Exmex.C10.add_sound", "Exmex.C10.mul_sound", "Exmex.C10.div_sound", "Exmex.C10.pow_sound", "Exmex.C10.sub_sound", "Exmex.C10.neg_sound",
                   "Exmex.C10.operateUnary_yields", "Exmex.Shortcut.compile_folded", "Exmex.Shortcut.operateBin_folded", "Exmex.Shortcut.wrapOK_of_folded",
@@ -356,9 +357,10 @@ PROPS = {
     ),
     "C13": dict(
         level="proof",
-        modules=["Exmex.Props.C13"],
+        modules=["Exmex.Props.C13", "Exmex.Props.C13Lex"],
         theorems=["Exmex.C13.isNumericText_spec", "Exmex.C13.findOps_sound", "Exmex.C13.findOps_longest",
-                  "Exmex.C13.name_continued_not_matched", "Exmex.C13.exact_name_matched", "Exmex.C13.sign_role", "Exmex.C13.brace_var"],
+                  "Exmex.C13.name_continued_not_matched", "Exmex.C13.exact_name_matched", "Exmex.C13.sign_role", "Exmex.C13.brace_var",
+                  "Exmex.C13.tokenize_render_spaced", "Exmex.C13.tokText_braced", "Exmex.C13.tokText_lit", "Exmex.C13.tokText_op", "Exmex.C13.tokText_ident"],
         rule="token streams of tokenize_and_analyze (hook) vs the Lean tokenizer and vs a reference tokenizer written in the harness from the statement (longest eligible name, identifier continuation, literal and brace rules; commas and unclosed braces not judged): operator/constant names extended and truncated by identifier and non-identifier characters in several left contexts, sign chains, literal spellings over {0,1,.}, braces with arbitrary content, call fragments, token soup; random tables with prefix-related names; plus well-formed renderings (flat kind) whose token stream must equal the canonical tokens of the chain; non-trivial = text of at least 2 characters; distinct by request hash",
         kinds=[dict(kind="lex", quick=30000, thorough=600000, corr=["toks"], oracle=[], oracle_const=[("ref", "ok")], nontrivial=lambda req, A, B: len(req.split("\t")[3]) >= 4),
                dict(kind="flat", quick=8000, thorough=200000, corr=["wo", "vars"], oracle=[("toksimpl", "stoks")],
